@@ -26,7 +26,8 @@ def build_vfun():
         shutil.rmtree(dst, ignore_errors=True)
         shutil.copytree(VFUN_DIR, dst)
         ct = os.path.join(dst, 'Cargo.toml')
-        open(ct, 'w').write(open(ct).read().replace('path = "/repo"', 'path = "%s"' % common.REPO))
+        txt = open(ct).read().replace('path = "/repo"', 'path = "%s"' % common.REPO)
+        open(ct, 'w').write(txt)
         VFUN_DIR = dst
     lock = os.path.join(VFUN_DIR, 'Cargo.lock')
     src_lock = os.path.join(common.REPO, 'Cargo.lock')
